@@ -1,5 +1,5 @@
 """C10 `:abort` returns the session to a clean top level."""
-REG_DRAFT = dict(
+REG = dict(
     engine='E2-bfs',
     technique='bounded-exhaustive enumeration of request histories (setup x failing site x further step x :abort x probe) replayed on the real JSON-session handler; differential against a fresh session of the same implementation and against the session itself before the failing request',
     text="Histories = (subset of 3 definitions and 2 top-level lets, each its own request; quick: empty/singletons/all, thorough: all 32) x (failing request: error at call depth 0-3 x inside {no block, if, while, for, match arm}, a fresh local at every level, preceded or not by a completed top-level let in the same request) x (nothing | :replace 5 | :skip | a second failing request) x :abort x probes, every probe in its own session. Oracle (a): every name of the history, `1 + 2` and a call of every defined function answer exactly as a fresh session that received only the definitions and `let name = literal` for the top-level variables. Oracle (b): :stack shows only the top-level frame, :fstmts is empty, :fvalues is a prefix of its value before the failing request, :locals = before-snapshot + completed top-level lets of the failing request, :resume answers as in an idle session.",
